@@ -83,8 +83,11 @@ __CPROVER_requires(__CPROVER_is_fresh(arg, sizeof(inproc_pipe)))
 __CPROVER_assigns(((inproc_pipe *) arg)->pipe)
 __CPROVER_ensures(RV == 0 && ((inproc_pipe *) arg)->pipe == p)
 ;
+/* stop: nothing to do for inproc (no I/O in flight that is not on a queue); touches nothing */
 static void inproc_pipe_stop(void *arg)
+__CPROVER_requires(1)
 __CPROVER_assigns()
+__CPROVER_ensures(1)
 ;
 /* fini: drops this side's reference on the pair; the LAST one destroys the pair (both queue mutexes,
  * then the block, released with its size); a pipe that never got a pair releases nothing */
